@@ -198,6 +198,12 @@ void run_typed(const Execution &ex) {
         } else if (op == "CopyAssign") {
             *me = *other;
             moved[o] = false;
+        } else if (op == "SelfCopyAssign") {
+            RB &alias = *me;
+            *me = alias;
+        } else if (op == "SelfMoveAssign") {
+            RB &alias = *me;
+            *me = std::move(alias);
         } else if (op == "MoveAssign") {
             *me = std::move(*other);
             moved[o] = false;
